@@ -20,7 +20,7 @@ import (
 
 //verif:include ../dnsdata/rdb/zz_verif_model.go
 //verif:include ../db/zz_verif_world.go
-//verif:harness H14_hb property=C14 native=no quick=layout=2,sched=0,watch=0,cache=0;layout=0,sched=0,watch=0,cache=1;layout=1,sched=0,watch=1,cache=1 thorough=layout=2,sched=0,watch=1,cache=1;layout=0,sched=0,watch=1,cache=0;layout=2,sched=1,watch=0,cache=0
+//verif:harness H14_hb property=C14 native=no quick=layout=2,sched=0,watch=0,cache=0,pre=0;layout=0,sched=0,watch=0,cache=1,pre=0;layout=1,sched=0,watch=1,cache=1,pre=0;layout=2,sched=1,watch=0,cache=0,pre=1 thorough=layout=2,sched=0,watch=1,cache=1,pre=0;layout=0,sched=0,watch=1,cache=0,pre=0;layout=2,sched=1,watch=0,cache=0,pre=0;layout=0,sched=2,watch=0,cache=1,pre=1
 
 func H14_hb() {
 	verifLayout = nd.Param("layout")
@@ -49,9 +49,15 @@ func H14_hb() {
 		_, _ = env.h.ServeDNSWithRCODE(context.Background(), w, q)
 		done <- struct{}{}
 	}
+	// one query of a named type and two of arbitrary unnamed (private-use) types: the per-type
+	// bookkeeping of the handler is shared by all query goroutines
+	u1, u2 := nd.Uint16(), nd.Uint16()
+	nd.Assume(u1 >= 0xff00 && u1 < 0xffff)
+	nd.Assume(u2 >= 0xff00 && u2 < 0xffff)
 	tasks := []func(){
 		func() { query(1, "m.z.", dns.TypeMX) },
-		func() { query(2, "q.z.", dns.TypeA) },
+		func() { query(2, "q.z.", u1) },
+		func() { query(3, "m.z.", u2) },
 		func() { // reloader: a partial and a full reload
 			verifPathGen["/db/gen0"] = 1
 			if m := db.VerifRocksModel(db.VerifDBI(env.h.dnsdb)); m != nil {
@@ -68,6 +74,12 @@ func H14_hb() {
 			env.h.ReportBackendStats()
 			done <- struct{}{}
 		},
+	}
+	if nd.Param("pre") == 1 {
+		// pre-emption shape: the three queries only, pre-empted between any two handler steps
+		// that are separated by a counter increment (budget: sched pre-emptions)
+		verifYieldAtStats = true
+		tasks = tasks[:3]
 	}
 	// the goroutines are started in an order chosen by the solver (with sched=0 each runs until
 	// it blocks, so the start order decides which generation and which code paths each one sees)
